@@ -429,7 +429,16 @@ func ruleSiblingIndex(c *Ctx) {
 			if (st.f.Name() != "Get" && st.f.Name() != "Set") || len(st.call.Args) < 1 {
 				return
 			}
-			if _, isSel := ast.Unparen(st.call.Fun).(*ast.SelectorExpr); !isSel {
+			sel, isSel := ast.Unparen(st.call.Fun).(*ast.SelectorExpr)
+			if !isSel {
+				// called through a local that holds the method value (store := state.Set)
+				if id, ok := ast.Unparen(st.call.Fun).(*ast.Ident); ok {
+					if lv, ok := localFuncValues[st.env.info.ObjectOf(id)]; ok && lv.sel != nil {
+						sel, isSel = lv.sel, true
+					}
+				}
+			}
+			if !isSel {
 				return
 			}
 			// only what the method does to its own receiver, directly or through other methods called on that same
@@ -439,7 +448,6 @@ func ruleSiblingIndex(c *Ctx) {
 				recvObj = info.Defs[fd.Recv.List[0].Names[0]]
 			}
 			// (the state the access is made on is, through every frame, this method's own receiver)
-			sel := ast.Unparen(st.call.Fun).(*ast.SelectorExpr)
 			root := sel.X
 			for {
 				if in, ok := ast.Unparen(root).(*ast.SelectorExpr); ok {
